@@ -40,11 +40,17 @@ FORBIDDEN = ["/", "\\", ":", "\0"]
 class V:
     """abstract value: kind in U/C/P/T, dots = the last path component may be '', '.' or '..'"""
 
-    def __init__(self, kind, dots=False, why=""):
-        self.kind, self.dots, self.why = kind, dots, why
+    def __init__(self, kind, dots=False, why="", lex=False):
+        # lex: os.path.abspath / normpath was applied to (part of) the path - '..' components were collapsed
+        # *textually*, which names another directory than the OS would reach when a component before the '..'
+        # is a symbolic link
+        self.kind, self.dots, self.why, self.lex = kind, dots, why, lex
 
     def __repr__(self):
-        return f"{self.kind}{'(dots?)' if self.dots else ''}"
+        return f"{self.kind}{'(dots?)' if self.dots else ''}{'(normalised lexically)' if self.lex else ''}"
+
+    def with_lex(self, lex=True):
+        return V(self.kind, self.dots, self.why, lex or self.lex)
 
 
 U = V("U")
@@ -183,11 +189,13 @@ def helper_summaries(module_tree: ast.Module) -> dict[str, str]:
 
 
 class Taint:
-    def __init__(self, fn: ast.FunctionDef, sources: set[str], helpers: dict[str, tuple[str, list[str]]] | None = None):
+    def __init__(self, fn: ast.FunctionDef, sources: set[str], helpers: dict[str, tuple[str, list[str]]] | None = None, init_env: dict | None = None, funcs: dict | None = None, depth: int = 0):
         self.fn = fn
         self.sources = sources
-        self.env: dict[str, V] = {}
+        self.env: dict[str, V] = dict(init_env or {})
         self.helpers = helpers or {}
+        self.funcs = {k: v for k, v in (funcs or {}).items() if k not in self.helpers}
+        self.depth = depth
         self.guards = containment_guards(fn)
         self.fixpoint()
         # a guarded name is inside its base on every path that gets past the guard - when the base is not
@@ -307,8 +315,28 @@ class Taint:
                     return V("P", dots=True, why=f"{e.func.id}() returns None or a path it checked to be inside {norm(barg)}")
             if fn in ("os.path.join", "Path", "pathlib.Path", "PurePath"):
                 return self._pathjoin([self.value(a) for a in e.args])
-            if fn in ("os.path.abspath", "os.path.normpath", "os.path.realpath", "os.fspath", "str", "os.path.expanduser"):
+            if fn in ("os.path.abspath", "os.path.normpath"):
+                return self.value(e.args[0]).with_lex() if e.args else U
+            if fn in ("os.path.realpath", "os.fspath", "str", "os.path.expanduser", "os.path.dirname"):
                 return self.value(e.args[0]) if e.args else U
+            if isinstance(e.func, ast.Name) and e.func.id in self.funcs and self.depth < 3 and e.func.id != self.fn.name:
+                # a function of the same module: its returns, with its parameters bound to the arguments' values
+                f_ = self.funcs[e.func.id]
+                ps_ = [a.arg for a in f_.args.args]
+                init = {}
+                for p_, a_ in zip(ps_, e.args):
+                    init[p_] = self.value(a_)
+                for k_ in e.keywords:
+                    if k_.arg in ps_:
+                        init[k_.arg] = self.value(k_.value)
+                rets_ = [r for r in walk_no_nested(f_) if isinstance(r, ast.Return) and r.value is not None]
+                if rets_:
+                    sub = Taint(f_, set(), self.helpers, init_env=init, funcs=self.funcs, depth=self.depth + 1)
+                    out = None
+                    for r in rets_:
+                        v_ = sub.value(r.value)
+                        out = v_ if out is None else join(out, v_)
+                    return out
             if fn in ("os.path.basename",):
                 v = self.value(e.args[0])
                 return v if v.kind != "T" else V("T", why=v.why)  # basename('..') is still '..'; keep T (not a sanitiser on Windows paths)
@@ -340,11 +368,19 @@ class Taint:
     def _derived(v: V) -> V:
         """a value computed from v by an unmodelled operation"""
         if v.kind == "U":
-            return U
-        return V("T", why=v.why or "derived from peer data")
+            return U.with_lex(v.lex) if v.lex else U
+        return V("T", why=v.why or "derived from peer data", lex=v.lex)
 
     @staticmethod
     def _concat(parts: list[V], literal_nondot: bool) -> V:
+        return Taint._concat0(parts, literal_nondot).with_lex(any(p.lex for p in parts))
+
+    @staticmethod
+    def _pathjoin(parts: list[V]) -> V:
+        return Taint._pathjoin0(parts).with_lex(any(p.lex for p in parts))
+
+    @staticmethod
+    def _concat0(parts: list[V], literal_nondot: bool) -> V:
         if any(p.kind == "T" for p in parts):
             return V("T", why=next(p.why for p in parts if p.kind == "T"))
         if any(p.kind == "P" for p in parts):
@@ -355,7 +391,7 @@ class Taint:
         return V("U", dots=not literal_nondot and all(p.dots for p in parts) if parts else False)
 
     @staticmethod
-    def _pathjoin(parts: list[V]) -> V:
+    def _pathjoin0(parts: list[V]) -> V:
         if not parts:
             return U
         if any(p.kind == "T" for p in parts):
@@ -380,12 +416,13 @@ PEER_COLUMNS: set[str] = set()
 
 def join(a: V, b: V) -> V:
     order = {"U": 0, "C": 1, "P": 1, "T": 3}
+    lex = a.lex or b.lex
     if a.kind == b.kind:
-        return V(a.kind, a.dots or b.dots, a.why or b.why)
+        return V(a.kind, a.dots or b.dots, a.why or b.why, lex)
     hi = a if order[a.kind] >= order[b.kind] else b
     if {a.kind, b.kind} == {"C", "P"}:
-        return V("P", a.dots or b.dots, a.why or b.why)
-    return V(hi.kind, a.dots or b.dots, hi.why)
+        return V("P", a.dots or b.dots, a.why or b.why, lex)
+    return V(hi.kind, a.dots or b.dots, hi.why, lex)
 
 
 def sinks_in(fn: ast.FunctionDef):
@@ -470,7 +507,8 @@ def run(repo: Repo, rep: Report, tier: str) -> None:
             rep.saw("functions with a write sink", f"{short}.{qualname(fn) or fn.name}")
             hs = helper_summaries(m.tree)
             helpers = {name: (bp, [a.arg for a in next(f for f in m.tree.body if isinstance(f, ast.FunctionDef) and f.name == name).args.args]) for name, bp in hs.items()}
-            ta = Taint(fn, sources, helpers)
+            mfuncs = {f.name: f for f in m.tree.body if isinstance(f, ast.FunctionDef)}
+            ta = Taint(fn, sources, helpers, funcs=mfuncs)
             fq = f"{short}.{qualname(fn) or fn.name}"
             for c in walk_no_nested(fn):
                 if isinstance(c, ast.Call):
@@ -483,7 +521,9 @@ def run(repo: Repo, rep: Report, tier: str) -> None:
                     n_sinks += 1
                     v = ta.value(a)
                     st = enclosing(c, (ast.stmt,)) or c
-                    if v.kind == "T":
+                    if v.lex and "add_instance" not in desc:
+                        rep.fail("path-taint", fq, st, f"{desc}: the path {norm(a)!r} went through os.path.abspath / normpath before the write: '..' components of the configured directory are collapsed textually, which names a different directory than the operating system reaches when a component before the '..' is a symbolic link - the instance is written outside the configured storage directory (hand the configured path to the OS as it is, or resolve it with os.path.realpath)", mod=m, node=c)
+                    elif v.kind == "T":
                         tainted_sinks += 1
                         rep.fail("path-taint", fq, st, f"{desc}: the path {norm(a)!r} is built from peer-controlled data ({v.why}) without a sanitiser: a SOP Instance UID such as '../x' or an absolute path writes outside the storage directory", mod=m, node=c)
                     elif destructive and v.dots and v.kind != "U":
@@ -527,6 +567,35 @@ def run(repo: Repo, rep: Report, tier: str) -> None:
     rep.floor("sanitiser applications on peer data", n_san, 1)
     rep.counters["tainted sinks"] = tainted_sinks
     check_configured_dir_used(repo, rep)
+    check_config_read_faithfully(repo, rep)
+
+
+def check_config_read_faithfully(repo: Repo, rep: Report) -> None:
+    """qrscp's storage directory and database file are configuration values. 'Inside the configured directory' means
+    the directory the configuration *denotes*: configparser's value syntax (%(name)s interpolation, as the shipped
+    default.ini documents) is part of it. A parser constructed with interpolation switched off or replaced, a
+    RawConfigParser, or a raw read of a location key stores into a directory literally named after the unexpanded
+    text instead of the one the operator configured."""
+    rep.rule("config-faithful", "the configuration the storage locations come from is read with configparser's standard value syntax (no interpolation override, no raw reads of location keys)")
+    n = 0
+    for mname, m in sorted(repo.modules.items()):
+        if not mname.startswith("pynetdicom.apps.") or ".tests" in mname:
+            continue
+        short = mname.replace("pynetdicom.", "")
+        for c in ast.walk(m.tree):
+            if not isinstance(c, ast.Call):
+                continue
+            nm = (dotted(c.func) or "").split(".")[-1]
+            if nm in ("ConfigParser", "RawConfigParser", "SafeConfigParser"):
+                n += 1
+                kw = next((k.value for k in c.keywords if k.arg == "interpolation"), None)
+                std = kw is None or (isinstance(kw, ast.Call) and (kw.func.attr if isinstance(kw.func, ast.Attribute) else getattr(kw.func, "id", "")) == "BasicInterpolation")
+                ok = nm != "RawConfigParser" and std
+                rep.check(ok, "config-faithful", f"{short}.{qualname(c) or '<module>'}", enclosing(c, (ast.stmt,)) or c, f"`{norm(c)}`: the configuration is parsed without configparser's standard interpolation, so a location such as `instance_location: /srv/archive/%(ae_title)s` is used as that literal text - instances and the database are created in a directory the operator did not configure", mod=m, node=c)
+            if isinstance(c.func, ast.Attribute) and c.func.attr == "get" and any(k.arg == "raw" and not (isinstance(k.value, ast.Constant) and k.value.value is False) for k in c.keywords) and any(isinstance(a, ast.Constant) and isinstance(a.value, str) and "location" in a.value for a in c.args):
+                n += 1
+                rep.fail("config-faithful", f"{short}.{qualname(c) or '<module>'}", enclosing(c, (ast.stmt,)) or c, f"`{norm(c)}` reads a storage location raw: %(name)s references in the configured value are not expanded", mod=m, node=c)
+    rep.floor("configuration parsers constructed by the applications", n, 1)
 
 
 def check_configured_dir_used(repo: Repo, rep: Report) -> None:
@@ -555,10 +624,30 @@ def check_configured_dir_used(repo: Repo, rep: Report) -> None:
                 start = [mm for mm, l in tn[0].succ if l == "true"]
                 sink_nodes = {x.id for x in cfg.nodes if x.ast is not None and x.kind == "stmt" and any(c in [s_[0] for s_ in sinks_in(fn)] for c in calls_at(x))}
 
+                mfuncs = {f.name: f for f in m.tree.body if isinstance(f, ast.FunctionDef)}
+
+                def join_call(c_):
+                    if not isinstance(c_, ast.Call):
+                        return False
+                    if (dotted(c_.func) or "") in ("os.path.join", "Path") and any("output_directory" in norm(a) for a in c_.args):
+                        return True
+                    if (dotted(c_.func) or "") in ("os.path.abspath", "os.path.realpath", "os.path.normpath", "os.fspath", "str") and c_.args:
+                        return join_call(c_.args[0])
+                    if isinstance(c_.func, ast.Name) and c_.func.id in mfuncs:
+                        # a helper that joins the directory it is handed to the file name on every return
+                        f_ = mfuncs[c_.func.id]
+                        ps_ = [a.arg for a in f_.args.args]
+                        ks = [k for k, a in enumerate(c_.args) if "output_directory" in norm(a) and k < len(ps_)]
+                        rets_ = [r for r in walk_no_nested(f_) if isinstance(r, ast.Return)]
+                        return bool(ks) and bool(rets_) and all(r.value is not None and any(isinstance(j, ast.Call) and (dotted(j.func) or "") in ("os.path.join", "Path") and j.args and norm(j.args[0]) in {ps_[k] for k in ks} for j in ast.walk(r.value)) for r in rets_)
+                    return False
+
                 def joins(x):
-                    return x.kind == "stmt" and isinstance(x.ast, ast.Assign) and isinstance(x.ast.value, ast.Call) and (dotted(x.ast.value.func) or "") in ("os.path.join", "Path") and any("output_directory" in norm(a) for a in x.ast.value.args)
+                    return x.kind == "stmt" and isinstance(x.ast, ast.Assign) and join_call(x.ast.value)
 
                 ok, w = True, []
+                if any(joins(x) and cfg.dominates(x, tn[0]) for x in cfg.nodes):
+                    start = []  # the directory is joined before the test, unconditionally
                 for s0 in start:
                     if joins(s0):
                         continue
